@@ -130,6 +130,10 @@ class Gen:
             pname = 'abcdef'[i]
             mark = self.make_mark(node, local_visible, depth, in_rec, in_cand)
             node['params'].append([pname, mark])
+            if mark[0] == 'sw' and mark[1] is not None and rng.random() < p.get('p_dup', 0.04):
+                # the same named switch declared for a second parameter of the node
+                import copy
+                node['params'].append([f'd{len(node["params"])}', copy.deepcopy(mark)])
             if mark[0] == 'oneof' and self.pending_outside:
                 for s_id in self.pending_outside:
                     if s_id not in [m[1] for _, m in node['params'] if m[0] == 'in']:
@@ -169,7 +173,7 @@ class Gen:
         if self.budget >= 2 and depth > 0 and not in_rec and r < p['p_sw'] + p['p_oneof'] + p['p_rec']:
             return self.make_rec(visible, depth, in_cand)
         used = [m[1] for _, m in consumer['params'] if m[0] == 'in']
-        if self.hostile == 'dup_param' and used and rng.random() < 0.5:
+        if used and rng.random() < (0.5 if self.hostile == 'dup_param' else p.get('p_dup', 0.04)):
             return ['in', rng.choice(used)]
         return ['in', self.pick_dep(visible, depth, in_rec, in_cand, avoid=used)]
 
